@@ -37,6 +37,9 @@ def variants(case, sb, g, out, drv, key, thorough):
     # (b) the whole input tree moved elsewhere (same directory name)
     r = T.run_real(sb.dir, case, variant='moved', loc=os.path.join('+else+', '+where+', '+q9+'))
     out.traces_validated += 1; differs(r, 'moving the input tree')
+    # ... also below a hidden (dot) directory: what lies ABOVE the input is not part of the input
+    r = T.run_real(sb.dir, case, variant='dotted', loc=os.path.join('.+q9+', '+deps+'))
+    out.traces_validated += 1; differs(r, 'moving the input tree below a dot-directory')
     # (b') ... or reached through a symbolic link on the way: the directory that holds the input is a link to where the tree really lies.
     # With input.follow_symlinks on (links INSIDE the tree are documented) the location still is not an input of the output
     lbase = os.path.join(sb.dir, '+zq9_linked+'); os.makedirs(os.path.join(lbase, '+store+'), exist_ok=True)
